@@ -121,6 +121,48 @@ func RunWorker(prop string, seed uint64, worker, cases int, scratch, out string,
 			}
 			res.Count("drift_sequences", 1)
 		}
+		// convoys: a state-changing request and a second request queued behind the target's mutex, then released in
+		// that order - the second one runs in a state that changed after it passed its pre-lock checks
+		if !sess.Dead && ok {
+			closer()
+			if t, closer, ok = mk(); ok {
+				sess.T = t
+				base = t.Digest()
+				var firsts, seconds []Req
+				for _, rq := range reqs {
+					if !rq.Valid || rq.Class == "pprof-index" {
+						continue
+					}
+					seconds = append(seconds, rq)
+					if rq.Method != "GET" && rq.Method != "HEAD" {
+						firsts = append(firsts, rq)
+					}
+				}
+				n := 0
+				for ai, a := range firsts {
+					for bi, b := range seconds {
+						if (ai*len(seconds)+bi)%nworkers != worker%nworkers || sess.Dead || !ok {
+							continue
+						}
+						if !full && !destroyer(a) && r.Intn(100) >= 30 {
+							continue
+						}
+						sess.Convoy(a, b)
+						n++
+						if d := t.Digest(); d != base {
+							res.Count("state_rebuilds", 1)
+							closer()
+							if t, closer, ok = mk(); !ok {
+								break
+							}
+							sess.T = t
+							base = t.Digest()
+						}
+					}
+				}
+				res.Count("convoy_pairs_"+cb.target, int64(n))
+			}
+		}
 		// concurrent requests: well-formed ones and reads, from several goroutines
 		if !sess.Dead && ok {
 			var pool []Req
@@ -366,4 +408,18 @@ func runAttach(res *vk.Result, r *vk.Rand, scratch string, j *os.File, worker in
 	}
 	sort.Strings(names)
 	res.Cases++
+}
+
+// destroyer tells whether a request, when it succeeds, takes the state away that other requests checked for
+// (closes or deletes the replica, reverts or reloads it, shuts the volume down, removes a replica).
+func destroyer(rq Req) bool {
+	if rq.Method == "DELETE" {
+		return true
+	}
+	for _, a := range []string{"action=close", "action=revert", "action=reload", "action=shutdown", "/v1/delete", "action=open", "action=create"} {
+		if strings.Contains(rq.URL, a) {
+			return true
+		}
+	}
+	return false
 }
